@@ -1040,35 +1040,22 @@ theorem eraseDups_spec {α} [DecidableEq α] : ∀ (n : Nat) (l : List α), l.le
 def CountsOk [DecidableEq T] (ds : DS R T W) : Prop :=
   ∀ c, ds.counts = some c → c = labelCount ds.t ds.tgts
 
-/-- **the labels of a dataset** (`labels()`, what `one_vs_all` iterates over): each label that
-occurs in the targets, exactly once, and nothing else -/
-theorem labelsOf_spec [DecidableEq T] {ds : DS R T W} (h2 : ∀ g ∈ ds.tgts, g.length = ds.t) (hc : CountsOk ds) :
+/-- **the labels of a dataset** (what `one_vs_all` iterates over: its own scan of the targets): each
+label that occurs in the targets, exactly once, and nothing else — whatever the cached counts say -/
+theorem labelsOf_spec [DecidableEq T] (ds : DS R T W) :
     (labelsOf ds).Nodup ∧ ∀ l, l ∈ labelsOf ds ↔ ∃ g ∈ ds.tgts, l ∈ g := by
-  have hcs : labelsOf ds = (((labelCount ds.t ds.tgts).flatten.map (·.1))).eraseDups := by
-    unfold labelsOf
-    cases hco : ds.counts with
-    | none => rfl
-    | some c => simp [hc c hco]
-  rw [hcs]
-  obtain ⟨hnd, hmem⟩ := eraseDups_spec _ ((labelCount ds.t ds.tgts).flatten.map (·.1)) (Nat.le_refl _)
+  obtain ⟨hnd, hmem⟩ := eraseDups_spec _ ds.tgts.flatten (Nat.le_refl _)
   refine ⟨hnd, fun l => ?_⟩
+  unfold labelsOf
   rw [hmem]
-  simp only [labelCount, List.mem_map, List.mem_flatten, List.mem_range]
-  constructor
-  · rintro ⟨⟨l', n⟩, ⟨m, ⟨c, hct, rfl⟩, hm⟩, rfl⟩
-    have := ((countCol_spec (column c ds.tgts)).2.1 l').mp (List.mem_map.mpr ⟨(l', n), hm, rfl⟩)
-    obtain ⟨g, hg, hgc⟩ := mem_column.mp this
-    exact ⟨g, hg, List.mem_of_getElem? hgc⟩
-  · rintro ⟨g, hg, hl⟩
-    obtain ⟨c, hc'⟩ := List.getElem?_of_mem hl
-    have hct : c < ds.t := by
-      rw [← h2 g hg]
-      exact (List.getElem?_eq_some_iff.mp hc').1
-    have hcol : l ∈ column c ds.tgts := mem_column.mpr ⟨g, hg, hc'⟩
-    have := ((countCol_spec (column c ds.tgts)).2.1 l).mpr hcol
-    obtain ⟨⟨l', n⟩, hm, e⟩ := List.mem_map.mp this
-    simp at e; subst e
-    exact ⟨(l', n), ⟨_, ⟨c, hct, rfl⟩, hm⟩, rfl⟩
+  simp [List.mem_flatten]
+
+/-- the scan keeps the labels in the order of their first appearance: the head of the flattened
+targets comes first, the rest is the scan of what is left without it -/
+theorem labelsOf_cons [DecidableEq T] (ds : DS R T W) (x : T) (rest : List T) (h : ds.tgts.flatten = x :: rest) :
+    labelsOf ds = x :: (rest.filter fun y => !y == x).eraseDups := by
+  unfold labelsOf
+  rw [h, List.eraseDups_cons]
 
 
 /-! ### totality helpers, per-sample iteration, label frequencies -/
@@ -1384,6 +1371,9 @@ def Guard (op : Op T) (ds : DS R T W) : Prop :=
   | .bootstrapFeatures nf fidx => (nf = 0 ∨ 0 < ds.p) ∧ InRange fidx ds.p
   | .intoSingleTarget => ds.t = 1
   | .sampleChunks size => 0 < size
+  -- `weight[i]` of the kept rows: no weights, or at least one per sample (always so under `WF`;
+  -- `with_weights` accepts shorter vectors, for which nothing is promised)
+  | .withLabels _ => ds.weights.length = 0 ∨ ds.n ≤ ds.weights.length
   | _ => True
 
 theorem shuffle_total [DecidableEq T] {idx : List Nat} {ds : DS R T W} (hw : WF ds) (hi : InRange idx ds.n) :
